@@ -251,6 +251,10 @@ class Parameter(Accessible):
         """return a clone of ourselfs with inherited properties"""
         res = type(self)(**kwds)
         res.name = self.name
+        if 'datatype' in properties:
+            # copy the datatype before datatype properties (min, max, unit ...) are applied to it:
+            # it is still the object of the class the properties are inherited from
+            properties = dict(properties, datatype=properties['datatype'].copy())
         res.init(properties)
         res.init(res.ownProperties)
         if 'datatype' in self.propertyValues:
